@@ -2001,6 +2001,147 @@ pub fn c10_uci_vs_direct(r: &crate::props::search::RepRecipe, slice: u16, st: &m
         }
     }
 }
+/// C10, second `go` of a chain: the game of the `position` command ends with two out-and-back
+/// cycles that START with the move the engine answers under a zero allowance (predicted in-process:
+/// the first move of its ordering). After `go` (answered with that move) the other, materially lost
+/// side is to move and can step into a position that has already occurred twice; a second `go`
+/// (timed, no `position` in between) must therefore end every completed depth with a score >= 0 -
+/// the record of the game must still be there.
+#[derive(Debug, Clone)]
+pub struct SecondGo {
+    pub walk: WalkRecipe,
+    pub sel: u16,
+    pub slice: u16,
+}
+fn man_value(k: Kind) -> i32 {
+    match k {
+        Kind::Pawn => 100,
+        Kind::Knight | Kind::Bishop => 320,
+        Kind::Rook => 500,
+        Kind::Queen => 900,
+        Kind::King => 0,
+    }
+}
+/// (position text, root after the predicted reply, predicted reply, repetition move available there)
+pub fn second_go_texts(g: &SecondGo) -> Option<(String, Pos, Move, Move)> {
+    let (start, mut moves) = play_walk(&g.walk)?;
+    let mut q = start.clone();
+    for m in &moves {
+        q = q.apply(m);
+    }
+    if q.ep.is_some() || q.in_check(q.stm) {
+        return None;
+    }
+    // the side to move must be the stronger one by at least a minor piece
+    let bal: i32 = q.sq.iter().flatten().map(|&(c, k)| if c == q.stm { man_value(k) } else { -man_value(k) }).sum();
+    if bal < 300 {
+        return None;
+    }
+    // the engine's zero-allowance reply at q: the documented fallback, first move of the ordering
+    let case = crate::props::search::make_case(&start, &moves).ok()?;
+    let run = crate::props::search::run_search(&case.board, &case.table, 0);
+    let b = run.sends.first().and_then(|x| desc(x).ok())?;
+    let rev = |p: &Pos, m: &Move| p.classify(m) == MoveClass::Quiet && p.sq[m.from as usize].map(|x| x.1) != Some(Kind::Pawn);
+    if !rev(&q, &b) {
+        return None;
+    }
+    let p1 = q.apply(&b);
+    let mut rs: Vec<Move> = p1.legal_moves().into_iter().filter(|m| rev(&p1, m)).collect();
+    rs.sort();
+    if rs.is_empty() {
+        return None;
+    }
+    let k0 = (g.sel as usize * rs.len()) >> 16;
+    for d in 0..rs.len() {
+        let r = rs[(k0 + d) % rs.len()].clone();
+        let p2 = p1.apply(&r);
+        let bb = Move { from: b.to, to: b.from, promo: None };
+        if !p2.legal_moves().contains(&bb) || !rev(&p2, &bb) {
+            continue;
+        }
+        let p3 = p2.apply(&bb);
+        let rr = Move { from: r.to, to: r.from, promo: None };
+        if !p3.legal_moves().contains(&rr) || !rev(&p3, &rr) {
+            continue;
+        }
+        if p3.apply(&rr) != q {
+            continue;
+        }
+        for _ in 0..2 {
+            moves.extend([b.clone(), r.clone(), bb.clone(), rr.clone()]);
+        }
+        let names: Vec<String> = moves.iter().map(mv_name).collect();
+        return Some((format!("position fen {} moves {}", start.fen(), names.join(" ")), p1, b, r));
+    }
+    None
+}
+fn second_go_json(g: &SecondGo) -> Value {
+    match second_go_texts(g) {
+        Some((t, _, b, r)) => json!({"second_go": true, "position": t, "predicted_reply": mv_name(&b), "repetition_move": mv_name(&r), "slice": g.slice}),
+        None => json!({"second_go": true, "position": null}),
+    }
+}
+pub fn c10_second_go_run(ptext: &str, predicted: &str, slice: u16, st: &mut Stats) -> CaseResult {
+    let p = position_from_text(ptext)?;
+    let b = parse_mv(predicted).ok_or("HARNESS: bad predicted move")?;
+    let r1 = p.apply(&b);
+    let white = r1.stm == Color::White;
+    let clock = 100 + (40 + (slice % 60) as u64) * 30 * 10 / 8 + 1;
+    let go = if white { format!("go wtime {} btime 3000", clock) } else { format!("go btime {} wtime 3000", clock) };
+    let once = || -> Result<Option<String>, String> {
+        let mut e = Engine::spawn()?;
+        e.handshake()?;
+        e.send(ptext);
+        let a = do_go(&mut e, "go", 0)?;
+        let tok = a.bestmove.as_deref().and_then(bestmove_token).unwrap_or("").to_string();
+        if tok != predicted {
+            return Ok(None); // the engine answered something else: nothing to judge here (C16 / C03 judge that)
+        }
+        let a2 = do_go(&mut e, &go, plan_ms(&go, white))?;
+        e.send("quit");
+        let mut infos = vec![];
+        for l in &a2.infos {
+            if let Ok(i) = parse_info(l) {
+                infos.push(i);
+            }
+        }
+        for (j, i) in infos.iter().enumerate() {
+            let completed = j + 1 < infos.len() && infos[j + 1].depth > i.depth;
+            if !completed {
+                continue;
+            }
+            let below = match i.score {
+                Score::Cp(x) => x < 0,
+                Score::Mate(n) => n < 0,
+            };
+            if below {
+                return Ok(Some(format!("`{}` ; `go` (answered {}) ; `{}`: the side to move can step into a position that has occurred twice, but depth {} ends with {:?}", ptext, predicted, go, i.depth, i.sans_time)));
+            }
+        }
+        Ok(Some(String::new()))
+    };
+    match once()? {
+        None => {
+            st.label("zero_allowance_reply_differs_from_prediction_skip");
+            Ok(())
+        }
+        Some(m) if m.is_empty() => {
+            st.label("second_go_judged");
+            Ok(())
+        }
+        Some(m) => match once()? {
+            Some(m2) if !m2.is_empty() => Err(m),
+            _ => {
+                let _ = m;
+                st.label("mismatch_not_reproduced_on_a_further_attempt");
+                Ok(())
+            }
+        },
+    }
+}
+fn second_go_strategy() -> impl Strategy<Value = SecondGo> {
+    (prop_oneof![3 => endgame_walk_strategy(20), 1 => gamelike_walk_strategy(40)], any::<u16>(), any::<u16>()).prop_map(|(walk, sel, slice)| SecondGo { walk, sel, slice })
+}
 pub fn run_c10_blackbox(ctx: &mut Ctx) {
     let t = ctx.tier;
     let saved = ctx.workers;
@@ -2017,9 +2158,32 @@ pub fn run_c10_blackbox(ctx: &mut Ctx) {
         },
         |(r, slice)| json!({"uci_vs_direct": true, "game": crate::props::search::rep_json(r), "slice": slice}),
     );
+    run_prop(
+        ctx,
+        "second_go_of_a_chain_still_knows_the_game",
+        second_go_strategy,
+        t.pick(2_400, 40_000),
+        |g, st| {
+            let Some((ptext, _, b, _)) = second_go_texts(g) else {
+                st.label("not_constructible_skip");
+                return Ok(());
+            };
+            st.eval();
+            st.sample(|| second_go_json(g));
+            st.nontrivial(fp(&ptext));
+            c10_second_go_run(&ptext, &mv_name(&b), g.slice, st)
+        },
+        second_go_json,
+    );
     ctx.workers = saved;
 }
 pub fn replay_c10_blackbox(case: &Value) -> CaseResult {
+    if case.get("second_go").is_some() {
+        let ptext = case.get("position").and_then(|x| x.as_str()).ok_or("no position")?;
+        let pred = case.get("predicted_reply").and_then(|x| x.as_str()).ok_or("no predicted reply")?;
+        let slice = case.get("slice").and_then(|x| x.as_u64()).unwrap_or(0) as u16;
+        return c10_second_go_run(ptext, pred, slice, &mut Stats::new());
+    }
     let g = case.get("game").ok_or("no game")?;
     let (start, moves) = parse_game_case(g)?;
     let slice = case.get("slice").and_then(|x| x.as_u64()).unwrap_or(0) as u16;
